@@ -247,6 +247,24 @@ static int universe0(cs_scenario *sc, const shape_t *sh, int tier)
     	st->sv[i] = 0.0;
         }
     }
+    if (P == 3) {
+	/* non-reciprocal isolator chain: only S23 and S31 non-zero off the
+	   diagonal, still one connected group of three ports */
+	cs_std *st = &sc->std[sc->nstd++];
+	static const int sp[9] = { PL11, -1,   -1,
+				   -1,   PL22, PL12,
+				   PL21, -1,   PM };
+	memset(st, 0, sizeof(*st));
+	st->entry = CSE_MAPPED;
+	st->np = 3;
+	st->null_map = true;
+	for (int i = 0; i < 3; ++i)
+	    st->port[i] = i + 1;
+	for (int i = 0; i < 9; ++i) {
+	    st->sp[i] = sp[i];
+	    st->sv[i] = 0.0;
+	}
+    }
     return sc->nstd;
 }
 
